@@ -154,6 +154,27 @@ func (sc *sched) release() {
 	sc.batch++
 }
 
+// repark: the dispatcher is let go and stopped again at a point of its own choosing -- the requests of the next
+// park are queued before the current one is released, so it runs on until its (random) select takes the new
+// stopper, with an arbitrary part of what was queued handled and the rest (and whatever that created) still queued.
+func (sc *sched) repark() {
+	if !sc.parked {
+		sc.park()
+		return
+	}
+	n1, n2 := make(chan checkResult), make(chan checkResult)
+	go func() { // the check queue holds one request: the new stoppers get in as the dispatcher makes room
+		sc.e.s.checkChan <- checkRequest{response: n1}
+		sc.e.s.checkChan <- checkRequest{response: n2}
+	}()
+	<-sc.g1
+	g2 := sc.g2
+	go func() { <-g2 }()
+	sc.g1, sc.g2 = n1, n2
+	synctest.Wait()
+	sc.batch++
+}
+
 func (sc *sched) launch(op opSpec) *opResult {
 	sc.mu.Lock()
 	r := &opResult{ID: len(sc.results), Op: op, Batch: sc.batch}
@@ -350,6 +371,8 @@ func runSchedule(c schedCase, probes []opSpec) (out schedOutcome) {
 		switch st.Kind {
 		case "park":
 			sc.park()
+		case "repark":
+			sc.repark()
 		case "launch":
 			sc.launch(*st.Op)
 		case "release":
